@@ -27,9 +27,14 @@ ASSUMPTIONS = [
     '"a later in-place change of the result cannot reach an operand")',
     'ulist: "duplicate" means what python containers mean by it (a is b or a == b), so 1, 1.0 and True are one element and a NaN object '
     'is a duplicate of itself only; right-hand operands are a single hashable non-list element, a list or a ulist',
-    'mapping keys are non-empty strings without "." (dictattr reads a dotted key as a tree path - that is C15) and never the name of a '
-    'dict/dictattr/Dict/dictable attribute or constructor parameter; attribute SET / DELETE is claimed only for keys without a leading "_" '
-    '(dictattr stores those as real attributes on purpose); attribute GET and all operators include such keys',
+    'mapping keys are non-empty strings without "." (dictattr reads a dotted key as a tree path - that is C15); mappings are built from a dict, never through '
+    'keywords. Keys named like constructor parameters / methods (columns, data, self, key, index, axis, copy, keys) take part in - & [list] [k1,k2] + and relabel '
+    'for all five classes, but NOT in the attribute-access check (d.keys / d.copy are the methods, not the items); all other keys are never the name of an attribute',
+    'attribute SET / DELETE is claimed only for keys without a leading "_" (dictattr stores those as real attributes on purpose); attribute GET and all operators include such keys',
+    'relabel(**{old: new}) cannot rename a key called "self" or "keys" (python binds those keywords to relabel\'s own parameters: TypeError "multiple values"); '
+    'such renames are made with the dict spelling relabel({old: new})',
+    'KNOWN F26, left out by construction: dictable.relabel whose result keeps or gets a column named columns / data / self (relabel still builds its result through '
+    '**keywords); PV_C16_INCLUDE_F26=1 generates it',
     'mapping values are flat: None, bools, ints, floats, strings, lists and tuples of them (no dict values: Dict + dict is the deep merge of C15)',
     'key selections are a single string or a list of strings (a tuple operand of "-" is a tree path, C15)',
     'd[list] and d[k1, k2] with an absent key may raise KeyError; nothing else is asserted about them',
@@ -337,6 +342,32 @@ _FLAT = st.one_of(_FLAT_SCALAR, _FLAT_SCALAR,
                   st.lists(_FLAT_SCALAR, max_size=3).map(lambda v: ['list', v]),
                   st.lists(_FLAT_SCALAR, max_size=2).map(lambda v: ['tuple', v]))
 _MAP_CLASSES = ['dictattr', 'Dict', 'AttrSub', 'DictSub', 'dictable']
+# keys named like constructor parameters / methods (F25): mappings are always built from a dict, never through keywords
+_SPECIAL = ['columns', 'data', 'self', 'key', 'index', 'axis', 'copy', 'keys']
+# F26: dictable.relabel still builds its result through **keywords, so a column that keeps / gets one of these names is swallowed by the
+# constructor (columns, data) or raises TypeError (self). Left out by construction for dictable relabel; PV_C16_INCLUDE_F26=1 puts it back.
+_F26_NAMES = ('columns', 'data', 'self')
+EXCLUDE_F26_BY_CONSTRUCTION = os.environ.get('PV_C16_INCLUDE_F26', '') != '1'
+
+
+def _special_pool(cls, opname):
+    if opname == 'attr':
+        return []            # attribute access is not expected to mirror item access where the name is a real attribute / method
+    if cls == 'dictable' and opname == 'relabel' and EXCLUDE_F26_BY_CONSTRUCTION:
+        return [n for n in _SPECIAL if n not in _F26_NAMES]
+    return list(_SPECIAL)
+
+
+def _is_known_f26(spec):
+    """dictable.relabel whose result keeps or gets a column named columns / data / self"""
+    op = spec['op']
+    if spec['cls'] != 'dictable' or op['name'] != 'relabel':
+        return False
+    keys = [kv[0] for kv in spec['items']]
+    if any(k in _F26_NAMES for k in keys):
+        return True
+    news = [n for _, n in op.get('map', [])] + list(op.get('new', [])) + [n for _, n in op.get('table', [])]
+    return any(n in _F26_NAMES for n in news)
 _DICT_FAMILY = ('Dict', 'DictSub')
 # right operands of d + other: any mapping class (F21: Dict + <dict subclass other than dict/dictattr/Dict> used to raise)
 _OTHER_CLASSES = ['dict', 'dictattr', 'Dict', 'AttrSub', 'DictSub', 'OrderedDict']
@@ -439,6 +470,11 @@ def _relabel_op(draw, keys, absent, long=False):
             op['map'] = [[k, n] for k, n in zip(some_keys(1, 2), draw(st.permutations(_NEW)))]
     else:
         op.update(form=form, new=list(draw(st.permutations(_NEW + _KEYS))[:len(keys)]))
+    # python cannot pass the names of relabel's own parameters (self, keys) as keywords: those renames use the dict spelling
+    if op.get('form') == 'kw' and any(o in ('self', 'keys') for o, _ in op['map']):
+        op['form'] = 'dict'
+    elif op.get('form') not in ('kw', 'dict') and 'map' in op:
+        op['map'] = [[o, n] for o, n in op['map'] if o not in ('self', 'keys')]
     return op
 
 
@@ -456,7 +492,13 @@ def _mapping_case(draw):
         # names with structure: the mapping holds both k and the label that prefixing / suffixing k produces
         chain = draw(st.sampled_from([('prefix', 'x_', ['a', 'x_a']), ('suffix', '_x', ['a', 'a_x']), ('prefix', 'x_', ['a', 'x_a', 'a_x'])]))
         keys = list(draw(st.permutations(keys + [k for k in chain[2] if k not in keys])))
-    absent = [k for k in _KEYS if k not in keys][:3] + _ABSENT_EXTRA
+    special = _special_pool(cls, opname)
+    absent_special = []
+    if special and draw(st.sampled_from([True, False, False, False])):
+        sp = list(draw(st.permutations(special)))
+        keys = list(draw(st.permutations(keys + sp[:draw(st.integers(1, 2))])))
+        absent_special = sp[2:3]
+    absent = absent_special + [k for k in _KEYS if k not in keys][:3] + _ABSENT_EXTRA
     if cls == 'dictable':
         nrows = draw(st.integers(0, 3))
         items = [[k, draw(st.lists(_FLAT_SCALAR, min_size=nrows, max_size=nrows))] for k in keys]
@@ -523,6 +565,7 @@ def _mapping_long_case(draw):
     nk = draw(st.one_of(st.integers(20, 80), st.sampled_from([31, 32, 33, 63, 64, 65, 80])))
     keys = list(draw(st.permutations(_LONG_KEYS))[:nk])
     absent = [k for k in _LONG_KEYS if k not in keys]
+    with_special = draw(st.sampled_from([True, False, False]))
     if cls == 'dictable':
         nrows = draw(st.integers(0, 2))
         items = [[k, [i * 10 + r for r in range(nrows)]] for i, k in enumerate(keys)]
@@ -533,6 +576,16 @@ def _mapping_long_case(draw):
     op = dict(name=opname)
     if cls == 'dictable' and opname in ('gett', 'add'):
         opname = op['name'] = 'getl'
+    if with_special:
+        # 1-3 keys named like constructor parameters / methods, somewhere among the many
+        sp = list(draw(st.permutations(_special_pool(cls, opname))))[:draw(st.integers(1, 3))]
+        for n in sp:
+            keys.insert(draw(st.integers(0, len(keys))), n)
+        nk = len(keys)
+        if cls == 'dictable':
+            items = [[k, [i * 10 + r for r in range(nrows)]] for i, k in enumerate(keys)]
+        else:
+            items = [[k, i] for i, k in enumerate(keys)]
     if opname == 'relabel':
         op = _relabel_op(draw, keys, absent[:3], long=True)
     elif opname == 'add':
@@ -548,6 +601,8 @@ def _mapping_long_case(draw):
         n_in = draw(st.integers(1, min(100, 2 * nk)))
         src = st.sampled_from(keys)
         sel = draw(st.lists(src, min_size=n_in, max_size=n_in))                 # repeats, any order
+        if with_special:
+            sel = sel + [k for k in keys if k in _SPECIAL][:draw(st.integers(0, 3))]
         if mode == 'mixed':
             sel = sel + draw(st.lists(st.sampled_from(absent), min_size=1, max_size=20))
             sel = list(draw(st.permutations(sel)))
@@ -596,7 +651,7 @@ def _is_known_and(spec):
 
 # F13 (found here and independently by C01): fixed in /repo by fb35268, so the class is generated again. The predicate stays available as
 # a signature for known_findings.json, and PV_C16_EXCLUDE_F13=1 leaves the class out by construction (for runs against a tree without the fix).
-KNOWN = {'c16.dictable_and_no_overlap': _is_known_and}
+KNOWN = {'c16.dictable_and_no_overlap': _is_known_and, 'c16.dictable_relabel_ctor_parameter_name': _is_known_f26}
 EXCLUDE_F13_BY_CONSTRUCTION = os.environ.get('PV_C16_EXCLUDE_F13', '') == '1'
 
 
@@ -632,6 +687,16 @@ def run_mapping_ops(spec):
         _len_classes('sel_len', len(op['keys']), cls)
     nt = False
     rep = '%s(%s)' % (cname, short(data, 150))
+    sp_keys = [k for k in keys if k in _SPECIAL]
+    if sp_keys:
+        cls.append('key_named_like_ctor_parameter')
+        for k in sp_keys:
+            cls.append('special_key=' + k)
+        if cname == 'dictable' and any(k in _F26_NAMES for k in sp_keys):
+            cls.append('dictable_column_named_columns_data_or_self')
+        touched = list(op.get('keys', [])) + [op.get('key')] + [kv[0] for kv in op.get('other', [])] + [o for o, _ in op.get('map', [])] + [o for o, _ in op.get('table', [])]
+        if any(k in touched for k in sp_keys) or (name == 'relabel' and op.get('form') in ('prefix', 'suffix', 'callable', 'list', 'args')):
+            cls.append('special_key_touched_by_the_operation')
 
     def sel_class(sel):
         n_in = sum(1 for k in sel if k in data)
@@ -1225,14 +1290,17 @@ SUBS = [
                                   'relabel_new_label_is_an_existing_key/list': 0.006, 'relabel_rule_plus_keywords': 0.01, 'relabel_changes_nothing': 0.01,
                                   'sel=all_keys_other_order': 0.015, 'sel=all_keys_same_order': 0.015, 'other_is_the_mapping_itself': 0.004, 'Dict_plus_other_mapping_class': 0.01, 'other=OrderedDict': 0.005,
                                   'other_has_same_keys_in_another_order': 0.01, 'falsy_value_selected': 0.05, 'dictable_zero_rows_with_columns': 0.01,
-                                  'result_has_no_keys': 0.03}),
+                                  'result_has_no_keys': 0.03, 'key_named_like_ctor_parameter': 0.1, 'special_key_touched_by_the_operation': 0.04,
+                                  'dictable_column_named_columns_data_or_self': 0.01, 'special_key=columns': 0.01, 'special_key=data': 0.01, 'special_key=self': 0.01,
+                                  'special_key=key': 0.01, 'special_key=index': 0.01, 'special_key=axis': 0.01, 'special_key=copy': 0.01, 'special_key=keys': 0.01}),
     Sub('mapping_long', lambda tier: _mapping_strategy(tier, long=True), run_mapping_ops, quick=1200, thorough=5000,
         rule='same classes and oracle as mapping_ops on mappings with 20-80 keys (dictattr.keys() is a ulist; sizes around 32 and 64 over-sampled): d - [keys], d & [keys], '
              'd[[keys]], d[k1, .., kn] with selections of up to 120 keys (repeats, any order, present or mixed with absent keys), d - key, d & key, d + other (up to 100 keys) and relabel (prefix, suffix, swap, rotation of up to 40 keys, rotated / reversed full list, permuting callable). '
              'non-trivial as in mapping_ops',
         floor=0.3, class_floors={'nkeys>=30': 0.6, 'nkeys>=64': 0.15, 'sel_len>=30': 0.2, 'sel_len>=64': 0.05, 'sel=mixed': 0.12, 'cls=dictable': 0.1,
                                  'op=subl': 0.08, 'op=andl': 0.08, 'op=getl': 0.08, 'op=relabel': 0.08, 'op=add': 0.06,
-                                 'relabel_permutes_existing_keys': 0.03}),
+                                 'relabel_permutes_existing_keys': 0.03, 'key_named_like_ctor_parameter': 0.15, 'special_key_touched_by_the_operation': 0.05,
+                                 'dictable_column_named_columns_data_or_self': 0.01}),
     Sub('call_graph', lambda tier: _call_case(tier), run_call, quick=2000, thorough=3000,
         rule='Dict / subclass with 0-4 base keys; keywords = 1-6 callable (derived) keys whose parameters name base keys, plain keywords or other derived keys '
              '(random dag over a hidden rank order; 1 in 4 gets 1-2 back edges, no self-loops; 1 in 3 derived names RE-DEFINES a key of d whose old value is an int, 0 or None; 1 callable in 8 returns None / 0; 1 case in 8 has 70 more base keys; names are prefixes / concatenations of one another; in 4 cases of 7 the mapping has a member literally named "key" - base key, plain keyword or derived key, also re-defining an old one - and about half of the callables take `key` as a parameter) plus 0-2 plain keywords; '
